@@ -34,6 +34,9 @@ class Module:
     def driver_args(self, prop, tier, sd, scen, trace):
         return [self.driver, "-in", scen, "-out", trace, "-seed", sd]
 
+    def replay(self, exe, prop, tier, sd, scen, trace, sc):
+        vlib.run_driver(exe, self.driver_args(prop, tier, sd, scen, trace))
+
     def extra_traces(self, prop, tier, sd, exe, sc, scenarios):
         """-> list of (name, trace file, index map or None) of additional recorded traces"""
         return []
@@ -58,6 +61,10 @@ def _gen_one(args):
     inv = c.get("invariants", mod.invariants)
     props = c.get("props", mod.gen_props)
     wd = os.path.join(scratch, "gen-" + "".join(ch if ch.isalnum() or ch in "-." else "_" for ch in name))
+    if c.get("wrapper"):
+        os.makedirs(wd, exist_ok=True)
+        with open(os.path.join(wd, c["wrapper"][0] + ".tla"), "w") as f:
+            f.write(c["wrapper"][1])
     cfg = "SPECIFICATION %s\nCONSTANTS\n%s\n%s%sCHECK_DEADLOCK FALSE\n" % (
         c.get("spec", mod.gen_spec), c["consts"], ("INVARIANTS %s\n" % inv) if inv else "",
         ("PROPERTIES %s\n" % props) if props else "")
@@ -111,7 +118,7 @@ def run(mod, prop, tier, replay=None, dev=False):
         scenarios = open(scen_file).read().splitlines()
         log("[%s] replaying %d scenarios on the real code" % (prop, len(scenarios)))
         trace = sc.path("trace.ndjson")
-        vlib.run_driver(exe, mod.driver_args(prop, tier, sd, scen_file, trace))
+        mod.replay(exe, prop, tier, sd, scen_file, trace, sc)
         traces = [("seq", trace, None)]
         if not replay:
             traces += mod.extra_traces(prop, tier, sd, exe, sc, scenarios)
